@@ -2,6 +2,10 @@
 
 proof side     : Props/C11.lean (vpar_step_formula, vpar_boundary_rule, vpar_wrap_terminates, vpar_zero_shift_identity,
                  vpar_linear_inside) over Model/VParAdv.lean.
+                 Props/C11Gen.lean (tie by translation: Generated/VParGen.lean = `general_v_parallel_advection_eval_step` regenerated
+                 from the source on every run, `f_eq` / `eval_spline_1d_scalar` uninterpreted; gen_vpar_eq: generated = model
+                 `evalNode` on f[0..n) in the three modes, nothing else written; gen_vpar_periodic_total / _terminates: fuel and
+                 termination of the two `while` loops for vMin < vMax; gen_vpar_fEq_null, gen_vpar_other_bound).
 correspondence : real `VParallelAdvection.step(f, dt, c, r)` of /repo vs. the model at Q (Drivers/C11.lean).  The model
                  receives the coefficients the real interpolator produced for the same data (contract) and evaluates them
                  exactly; `f_eq` values are tags, compared with the real `f_eq` at the model's arguments.
@@ -500,7 +504,9 @@ def run(chk):
                 'non-uniform breaks) x (fEq, null, periodic) x shift family (exact: foot exactly on vMin/vMax/a node/one ulp '
                 'outside/k widths away, doubles certified exact; zero; < 1 cell; several cells; 1-6 domain widths; both signs); '
                 'non-trivial = c*dt != 0 and at least one node compared; distinct by (path, cells, mode, family, c*dt)')
-    chk.proof_side(build=not getattr(chk, 'no_build', False))
+    # Props/C11Gen.lean is about Generated/VParGen.lean = `general_v_parallel_advection_eval_step` as the source says it NOW
+    common.run_translator(chk, 'translate_pure.py', '--only', 'vpar')
+    chk.proof_side(build=not getattr(chk, 'no_build', False), extra_props=('C11Gen',))
     C = Constants()
     drv = common.LeanDriver('C11.lean')
     try:
